@@ -268,3 +268,14 @@ Theorem C09_refuted_deadlock_buffered :
   greedy_stuck Current 1 7 = true /\ greedy_stuck Current 2 9 = true /\ greedy_stuck Current 3 11 = true.
 Proof. exact current_buffered_deadlocks. Qed.
 Print Assumptions C09_refuted_deadlock_buffered.
+
+(* ---- the clamps used above are those of the channel model whose framing theorems are C02/C03/C10:
+        Pipeline.chan_truncate (transcribed over the regenerated struct table, in Z) and
+        Channel.maybe_truncate (in N with explicit mod 2^32) agree on every wire-representable
+        message (Proofs/PipelineChannel.v) ---- *)
+From P9 Require Import Model.Spec9P Model.Wire Model.Channel Proofs.PipelineChannel.
+
+Theorem C09_truncate_is_channel_model : forall msize f, wf_fcall f = true ->
+  chan_truncate (Z.of_N msize) (fc_type f, fc_fields f) = proj (maybe_truncate msize f).
+Proof. exact chan_truncate_is_maybe_truncate. Qed.
+Print Assumptions C09_truncate_is_channel_model.
